@@ -483,6 +483,67 @@ def tree_shapes(ctx):
     return S
 
 
+def random_tree(rng, n):
+    """a random response body: plain assertions, EncryptedAssertions (ciphertext / plaintext / nested), stray nodes"""
+    counter = [0]
+    keys = ["sp", "sp", "sp", "sp2", "other"]
+    sigs = [None, "valid", "valid", "corrupt"]
+
+    def nid():
+        counter[0] += 1
+        return n * 100 + counter[0]
+
+    def adv_asrt():
+        return TA(advice_spec(nid(), rng.choice([None, None, "valid", "corrupt"])))
+
+    def advice():
+        r = rng.random()
+        if r < 0.45:
+            return []
+        kids = []
+        for _ in range(rng.choice([1, 1, 2])):
+            t = rng.random()
+            if t < 0.5:
+                kids.append(EA(Enc(rng.choice(keys), adv_asrt())))
+            elif t < 0.65:
+                kids.append(EA(adv_asrt()))
+            elif t < 0.85:
+                kids.append(adv_asrt())
+            else:
+                kids.append(Enc(rng.choice(keys), adv_asrt()))
+        return kids
+
+    def asrt():
+        mut = rng.choice([None] * 6 + ["expired", "audience"])
+        ext = [Enc(rng.choice(keys), O())] if rng.random() < 0.1 else []
+        return TA(asp(nid(), rng.choice(sigs), mut), advice=advice(), ext=ext)
+
+    def ea():
+        kids = []
+        for _ in range(rng.choice([1, 1, 1, 2])):
+            t = rng.random()
+            if t < 0.6:
+                kids.append(Enc(rng.choice(keys), asrt()))
+            elif t < 0.75:
+                kids.append(asrt())
+            elif t < 0.85:
+                kids.append(Enc(rng.choice(keys), Enc(rng.choice(keys), asrt())))
+            else:
+                kids.append(Enc(rng.choice(keys), O(asrt())))
+        return EA(*kids)
+
+    shape = rng.random()
+    if shape < 0.45:
+        root = [ea()]
+    elif shape < 0.7:
+        root = [asrt()] + [ea() for _ in range(rng.choice([0, 1, 2]))]
+    else:
+        root = [ea()] + [rng.choice([lambda: Enc(rng.choice(keys), asrt()), lambda: Enc(rng.choice(keys), ea()), lambda: O(Enc(rng.choice(keys), asrt())),
+                                     lambda: ea(), lambda: asrt()])() for _ in range(rng.choice([1, 1, 2]))]
+    rng.shuffle(root)
+    return root
+
+
 def unit_tree(ctx, fixed):
     cases, runs = [], []
     shapes = tree_shapes(ctx)
@@ -500,6 +561,14 @@ def unit_tree(ctx, fixed):
                 plan.append((name, kids, dict(), ("sp",), faults, "fail"))
         plan.append((name, kids, dict(was=True), ("sp",), [], "skip"))
         plan.append((name, kids, dict(), ("sp", "sp2"), [], "skip"))
+    for j in range(int(os.environ.get("C17_RANDOM_TREES") or (120 if ctx.quick else 2500))):
+        kids = random_tree(ctx.rng, j + 1)
+        name = "random-%d" % j
+        so = ctx.rng.choice(sp_opts)
+        plan.append((name, kids, so, ("sp",), [], "fail"))
+        plan.append((name, kids, dict(was=True), ctx.rng.choice([("sp", "sp2"), ("sp2", "sp"), ("sp2",)]), [], "fail"))
+        plan.append((name, kids, so, ("sp",), ctx.rng.choice([[True], [False, True], [True, False, True], [False, False, True]]), "fail"))
+        plan.append((name, kids, so, ("sp",), [], "skip"))
     n = 0
     with env.Clock(NOW):
         rendered = {}
@@ -521,19 +590,23 @@ def unit_tree(ctx, fixed):
 def judge_tree(ctx, runs):
     """the property on each tree run, stated on the generation spec (no model involved)"""
     for name, kids, so, keys, faults, policy, got, info, show in runs:
-        fam = name.split(":")[0]
+        fam = "random" if name.startswith("random-") else name.split(":")[0]
         ctx.count("tree:%s:%s" % (policy + ("+faults" if faults else ""), "accepted" if isinstance(got, list) else "rejected"))
         ctx.nontriv((name, tuple(sorted(so.items())), tuple(keys), tuple(faults), policy))
         if not isinstance(got, list):
             continue
         specs = {a["id"]: a for a in enc_tree.all_specs(kids)}
         where = "%s:%s%s" % (fam, policy, ":faults" if faults else "")
+        was_encrypted = _directly_encrypted(kids)
         for aid in info["ids"] + info["advice"]:
             a = specs.get(aid)
             if a is None:
                 ctx.oracle_fail("tree:unknown-assertion:" + where, "an assertion with id %r that is not in the document was read" % aid, show)
                 continue
-            if a.get("sig") in ("corrupt", "wrongkey"):
+            # (an advice assertion that is not the content of an EncryptedAssertion is covered by the enclosing assertion
+            #  only: its own signature is never looked at, whether the enclosing assertion was encrypted or not — no
+            #  difference between plain and encrypted for this property)
+            if a.get("sig") in ("corrupt", "wrongkey") and (aid in info["ids"] or aid in was_encrypted):
                 ctx.oracle_fail("tree:bad-signature-read:" + where,
                                 "assertion %s was read although its signature does not verify (%s)" % (aid, a["sig"]), show)
         for aid in info["ids"]:
@@ -548,6 +621,29 @@ def judge_tree(ctx, runs):
         for aid in info["ids"] + info["advice"]:
             if aid in specs and not _reachable(kids, aid, keys):
                 ctx.oracle_fail("tree:unopenable-read:" + where, "assertion %s sits under a ciphertext no configured key opens, yet it was read" % aid, show)
+
+
+def _directly_encrypted(kids):
+    """ids of the assertions that are the plaintext of the EncryptedData of an EncryptedAssertion"""
+    out = set()
+
+    def go(n, in_ea, parent_enc_in_ea):
+        if n[0] == "A":
+            if parent_enc_in_ea:
+                out.add(n[1]["id"])
+            for k in n[2] + n[3]:
+                go(k, False, False)
+        elif n[0] == "Enc":
+            go(n[2], False, in_ea or parent_enc_in_ea)      # (ciphertext of ciphertext stays inside the EncryptedAssertion)
+        elif n[0] == "EA":
+            for k in n[1]:
+                go(k, True, False)
+        else:
+            for k in n[1]:
+                go(k, False, False)
+    for k in kids:
+        go(k, False, False)
+    return out
 
 
 def _reachable(kids, aid, keys):
